@@ -13,9 +13,12 @@ import (
 	"runtime/debug"
 	"strings"
 	"sync"
+	"time"
 
 	"golang.org/x/tools/go/ssa"
 )
+
+var progress = os.Getenv("GOSYM_PROGRESS") != ""
 
 const RepoPath = "github.com/New-JAMneration/JAM-Protocol"
 
@@ -342,8 +345,12 @@ func (m *Machine) Explore(run *HarnessRun, root *ssa.Package, fn *ssa.Function) 
 			return
 		}
 		ex.reset(w)
+		tp := time.Now()
 		end := m.runPath(root, fn)
 		end.Path = pathString(ex.decisions)
+		if progress {
+			fmt.Fprintf(os.Stderr, "  [%s] path %q -> %s %s (%d obligations, %v)\n", run.Name, end.Path, end.Status, end.Detail, len(ex.obligations), time.Since(tp).Round(time.Millisecond))
+		}
 		ex.merge(end)
 		run.done()
 	}
